@@ -19,6 +19,10 @@ Seeds == { <<60,97,62,60,47,32,62,60,47,9,13,10,62,60,32,62,60,47,32,62>>,   \* 
            <<60,97,62,12,120,12,60,47,97,62,12>>,                  \* <a>FF x FF</a>FF
            <<60,97,12,98,61,34,49,34,11,47,62>>,                   \* <a FF b="1" VT/>
            <<60,33,45,45,45,62,45,45,62>>,                         \* <!--->-->
+           <<60,33,45,45,32,97,98,99,45,100,45,45,101,32,45,45,62,60,116,47,62>>,       \* <!-- abc-d--e --><t/>   (the double hyphen AFTER an isolated one, at offsets that do not coincide)
+           <<60,33,45,45,45,97,45,98,45,45,62,60,116,47,62>>,       \* <!---a-b--><t/>   (a body that starts with a hyphen, isolated hyphens only)
+           <<239,189,152,60,97,47,62>>,       \* U+FF58 <a/>   (first byte EF like a byte-order mark, but none)
+           <<239,187,60,97,47,62>>,       \* EF BB <a/>    (two bytes of a mark, then markup)
            <<60,33,45,45,97,45,98,45,99,45,100,45,101,45,45,102,45,45,62,120>>,       \* <!--a-b-c-d-e--f-->x   (single hyphens before the double one)
            <<60,33,91,67,68,65,84,65,91,93,93,93,93,62>>,          \* <![CDATA[]]]]>
            <<60,97,32,98,61,39,34,62,39,62>>,                      \* <a b='">'>
